@@ -28,6 +28,9 @@ const (
 )
 
 func runC03(c *eng.Ctx) {
+	// (shared with C08/C10) a reader recognises a replaced or removed segment whatever wraps the error on its way up
+	ruleSentinelIdentity(c, "R14.6", []string{cl + "(*Reader).ReadMessage", cl + "(*ReverseReader).ReadMessage"}, "the reader does not notice that the segment it was reading was replaced (compaction, truncation) or removed (retention): it fails instead of re-positioning itself and carrying on")
+
 	c.Rule("R03.12", "K5")
 	ruleReadAtAnswersFromTheFile(c)
 	c.Rule("R03.13", "K1")
